@@ -146,7 +146,9 @@ pub fn draw_float_bits(r: &mut Rng, is_f64: bool) -> u64 {
         _ => r.below(emax + 1),
     };
     let mut m = mant(r);
-    if ef == 0 && m == 0 {
+    if ef == 0 && m == 0 && !r.chance(1, 3) {
+        // (+0.0 stays in with probability 1/3: its upper midpoint, half the smallest
+        // subnormal, is the rounding boundary between zero and the first float)
         m = 1 + r.below(mmask);
     }
     (ef << mbits) | m
